@@ -213,6 +213,7 @@ LIT = {
     "split-trees": ["mix4", 6, 64, 20, 8],
     "tree-lookups-under-inserts": ["treeread", 2, 64, 10, 8],
     "samebin-lookups-under-inserts": ["treeread", 3, 64, 9, 8],
+    "unlink-republish": ["unlink", 2, 0, 2, 6],
 }
 
 
@@ -251,7 +252,7 @@ PLAN["C15"] = dict(
     miri_classes=["data-race", "ub"],
     require={},
     require_prefix={"miri_seeds_": 8},
-    jobs=lambda t: miri_jobs(["list-mix3", "tree-mix3", "grow", "split-trees", "tree-lookups-under-inserts"], q(t, 12, 256), q(t, 4, 16))
+    jobs=lambda t: miri_jobs(["list-mix3", "tree-mix3", "grow", "split-trees", "tree-lookups-under-inserts", "unlink-republish"], q(t, 12, 256), q(t, 4, 16))
     + miri_jobs(["tree-samebin-mix4", "list-mix4", "tree-grow-from-0", "init-race", "samebin-lookups-under-inserts"], q(t, 4, 128), q(t, 1, 16))
     # late readers walking links stored under the tree's write lock: needs long uninterrupted runs
     # of the writer, hence the low preemption rate (quick: smoke test; thorough: the exploration)
